@@ -55,7 +55,7 @@ class C06(Prop):
     streams = {"lookup": X.LOOKUP_STREAM}
     classifiers = {
         "c06_chained": lambda case, obs, failure: case["input"].get("form") == "chained",
-        "c06_tilde_in_eq_literal": lambda case, obs, failure: case["input"].get("form") in ("eq", "eqq", "text")
+        "c06_tilde_in_eq_literal": lambda case, obs, failure: case["input"].get("form") in ("eq", "eqq", "text", "textq")
         and "~" in case["input"].get("v", "")
         or case["input"].get("form") == "fanchain" and "=" in case["input"]["xpath"].split("/")[-2] and "~" in case["input"].get("v", ""),
     }
@@ -80,8 +80,10 @@ class C06(Prop):
                 t, P, ppath = {"a": {"b": [[0], recs]}}, rng.choice(["a/b[1]", "//a/b[last()]", "a/b/[1]"]), ["a", "b", 1]
             f = rng.choice(FIELDS)
             k = rng.choice(FIELDS)
-            v = rng.choice(LITS)
-            form = rng.choice(["star", "short", "eq", "eq", "ne", "has", "eqq", "text", "chained", "fanchain"])
+            v = rng.choice(LITS) if rng.random() < 0.95 else ""      # the empty literal: equals no string or number field
+            form = rng.choice(["star", "short", "eq", "eq", "ne", "has", "eqq", "text", "textq", "chained", "fanchain"])
+            if v == "" and form == "has":
+                form = "textq"
             q = rng.choice(["'", '"'])
             if form == "star":
                 xp = "%s[*]/%s" % (P, f)
@@ -97,6 +99,8 @@ class C06(Prop):
                 xp = "%s[%s~%s]/%s" % (P, k, v, f)
             elif form == "text":
                 xp = "%s/%s[text()=%s]/../%s" % (P, k, v, f)
+            elif form == "textq":
+                xp = "%s/%s[text()%s%s%s%s]/../%s" % (P, k, rng.choice(["=", "=", "!="]), q, v, q, f)
             elif form == "fanchain":
                 # chained selection whose first selecting step is a fan-out: orders/items[k=v]/f, orders[*]/items/f ...
                 orders = [{"id": rng.choice(["1", "2"]), "items": gen_recs(rng, rng.randint(0, 3))} for _ in range(rng.randint(1, 3))]
@@ -109,15 +113,37 @@ class C06(Prop):
                 orders = [{"id": rng.choice(["1", "2"]), "items": gen_recs(rng, rng.randint(0, 3))} for _ in range(rng.randint(1, 3))]
                 t, ppath = {"orders": orders}, None
                 xp = "orders[id=%s]/items[%s=%s]/%s" % (rng.choice(["1", "2"]), k, v, f)
+            pre = None
+            if ppath is not None and rng.random() < 0.12:
+                # the same question asked twice on one document, the record list (or its parent) replaced in between:
+                # the second answer is about the records that are there now
+                pre = {"recs": gen_recs(rng), "graft": len(ppath) if rng.random() < 0.6 or len(ppath) < 2 or not isinstance(ppath[-1], str)
+                       else len(ppath) - 1}
             for kind in ((1,) if form == "chained" else (1, 2) if form == "fanchain" else (0, 1, 2)):
-                out.append({"stream": "lookup", "tag": "%s:d%d:k%d" % (form, depth, kind),
-                            "input": {"tree": t, "mode": mode, "xpath": xp, "kind": kind, "form": form, "ppath": ppath,
-                                      "f": f, "k": k, "v": v}})
+                inp = {"tree": t, "mode": mode, "xpath": xp, "kind": kind, "form": form, "ppath": ppath, "f": f, "k": k, "v": v}
+                if pre:
+                    inp["pre"] = pre
+                out.append({"stream": "lookup", "tag": "%s:d%d:k%d%s" % (form, depth, kind, ":requery" if pre else ""), "input": inp})
         return out
 
     def run_impl(self, case):
         i = case["input"]
         obj = X.build(i["tree"], i["mode"])
+        if i.get("pre"):
+            # build the earlier document (other records at the same place), ask, then graft today's container in
+            t0 = copy.deepcopy(i["tree"])
+            par = X.plain_get(t0, i["ppath"][:-1])
+            par[i["ppath"][-1]] = copy.deepcopy(i["pre"]["recs"])
+            old = X.build(t0, i["mode"])
+            try:
+                X.lookup(old, i["kind"], i["xpath"])
+            except Exception:  # noqa
+                pass
+            g = i["pre"]["graft"]
+            new_node = X.raw_get(obj, i["ppath"][:g])
+            holder = X.raw_get(old, i["ppath"][:g - 1])
+            holder[i["ppath"][g - 1]] = new_node
+            obj = old
         v = X.lookup(obj, i["kind"], i["xpath"])
         case["_res"] = v
         return {"ok": ["l", 0, [L.canon(v), L.canon(obj)]]}
@@ -165,16 +191,19 @@ class C06(Prop):
             return ("nested", out)
         recs = X.plain_get(i["tree"], i["ppath"])
         sel = []
+        neg = form == "ne" or (form == "textq" and "[text()!=" in i["xpath"])
         for r in recs:
             if form in ("star", "short"):
                 ok = True
             else:
                 if k not in r:
                     continue
+                if v == "" and r[k] in ("", 0, False):
+                    return None          # the empty literal is read as false(): what it equals among falsy values is not stated
                 ok = lit_in(r[k], v) if form == "has" else lit_eq(r[k], v)
                 if ok is None:
                     return None          # a field value outside the quantifier takes part in the selection
-                if form == "ne":
+                if neg:
                     ok = not ok
             if ok and f in r:
                 sel.append(r[f])
